@@ -449,7 +449,7 @@ def clause_premises(R):
     S = Session()
     prog = S.prog
     base = S.find("samplerz::base_sampler")
-    tabs = [c09.array_const(prog, c, 16) for t, c in c09.consts_in(prog, base, lambda t: t.tag == "Array" and "u128" in t.s)]
+    tabs = [c09.array_const(prog, c, 16) for t, c in c09.consts_in(prog, base, lambda t: t.tag in ("Array", "Ref") and "u128; 18" in t.s)]
     tabs = [t for t in tabs if t and len(t) == 18]
     R.check(len(tabs) >= 1 and all(t == RCDT for t in tabs), "C10-premise", "base_sampler RCDT", "the 18 table entries equal the specification's Table 3.1 (shared with C09)",
             f"table differs from the specification at indices {[i for i in range(18) if tabs and tabs[0][i] != RCDT[i]]}" if tabs else "no [u128; 18] constant found", key="prem|rcdt")
